@@ -100,6 +100,11 @@ POOL: list[tuple[str, str, list[str] | None]] = [
     ("create-table-unqualified", "create table made_here (i int)", ["status"]),
     ("regexp", "select regexp_replace(name, 'A', 'z') as r, regexp_substr(name, '[a-z]+') as s from t1 order by id", ["R", "S"]),
     ("sample-seeded", "select id from t1 sample (100) seed (3) order by id", ["ID"]),
+    # appended later (earlier indices are referred to by committed replay cases)
+    ("current-functions-unaliased", "select current_database(), current_schema()", None),
+    ("identifier-create", "create table identifier('made_by_ident') (i int)", ["status"]),
+    ("identifier-drop", "drop table identifier('made_by_ident')", ["status"]),
+    ("identifier-insert", "insert into identifier('t1') (id) values (77)", None),
 ]
 LABELS = [p[0] for p in POOL]
 # label -> (database, schema) the session must report after the statement succeeded; None = keep that part
@@ -138,8 +143,12 @@ def tokens(sql: str) -> list[tuple[str, str]]:
 def respell(sql: str, masks: list[int]) -> str:
     """Change the letter case of keywords and unquoted identifiers only; mask i drives word i (0 lower, 1 upper, else per-char bits)."""
     out, wi = [], 0
+    prev: list[str] = []  # the last two non-blank tokens, lower-cased
     for kind, text in tokens(sql):
-        if kind == "word":
+        ident_literal = kind == "lit" and prev[-2:] == ["identifier", "("] and '"' not in text
+        if kind != "ws":
+            prev = (prev + [text.lower()])[-2:]
+        if kind == "word" or ident_literal:  # the literal of IDENTIFIER('name') spells an unquoted identifier
             mk = masks[wi % len(masks)] if masks else 0
             wi += 1
             if mk == 0:
@@ -170,7 +179,7 @@ def _outcome(cur, conn, sql):
             desc = f"description raised {type(e).__name__}"
     keys = list(o.rows[0].keys()) if o.ok and o.rows and isinstance(o.rows[0], dict) else None
     rows = [tuple(r.values()) if isinstance(r, dict) else tuple(r) for r in o.rows] if o.ok else None
-    return {"ok": o.ok, "err": o.err_key() if not o.ok else None, "rows": repr(rows), "rowcount": o.rowcount, "desc": desc, "keys": keys, "ctx": (conn.database, conn.schema), "msg": None if o.ok else str(o.msg)[:200]}
+    return {"ok": o.ok, "err": o.err_key() if not o.ok else None, "rowlist": rows, "rows": repr(rows), "rowcount": o.rowcount, "desc": desc, "keys": keys, "ctx": (conn.database, conn.schema), "msg": None if o.ok else str(o.msg)[:200]}
 
 
 def run_script(case, ctx: Ctx) -> None:
@@ -199,8 +208,23 @@ def run_script(case, ctx: Ctx) -> None:
             has_u = True
             if oa["ok"] and sql_b != sql:
                 changed_ok = True
+            # The one table created through IDENTIFIER('made_by_ident'): whether its name is folded is judged on its own (one
+            # signature, below), so that observers listing it do not all report the same root cause under their own names.
+            fold = lambda v: re.sub("made_by_ident", "MADE_BY_IDENT", v, flags=re.I) if isinstance(v, str) else v  # noqa: E731
+            for side, o_, q_ in (("as-written", oa, sql), ("re-spelled", ob, sql_b)):
+                m_ = re.search("made_by_ident", o_["rows"] or "", flags=re.I) if o_["ok"] and label not in ("identifier-create", "identifier-drop") else None
+                if m_ and m_.group(0) != "MADE_BY_IDENT":
+                    ctx.fail("C02|identifier-literal|object-name-not-folded", f"`{q_}` ({side}) lists the table created by IDENTIFIER('made_by_ident') as {m_.group(0)!r}; an unquoted name folds to upper case")
+            if label in ("identifier-create", "identifier-drop"):
+                for side, o_, q_ in (("as-written", oa, sql), ("re-spelled", ob, sql_b)):
+                    if o_["ok"] and "MADE_BY_IDENT " not in (o_["rows"] or ""):
+                        ctx.fail("C02|identifier-literal|status-message-not-folded", f"`{q_}` ({side}) answered {o_['rows']}; the status names the object in upper case")
+            if re.search("made_by_ident", (oa["rows"] or "") + (ob["rows"] or ""), flags=re.I) and oa["rowlist"] is not None and ob["rowlist"] is not None:
+                # ... and where the listing is ordered by name, the unfolded name also sorts elsewhere
+                oa = {**oa, "rows": repr(sorted(fold(repr(r)) for r in oa["rowlist"]))}
+                ob = {**ob, "rows": repr(sorted(fold(repr(r)) for r in ob["rowlist"]))}
             for what in ("ok", "err", "rows", "rowcount", "desc", "keys", "ctx"):
-                if oa[what] != ob[what]:
+                if fold(oa[what]) != fold(ob[what]):
                     if what in ("ok", "err"):
                         disc = f"{'ok' if oa['ok'] else oa['err'][0]}-vs-{'ok' if ob['ok'] else ob['err'][0]}"
                     else:
